@@ -24,11 +24,11 @@ VARIANTS = {
     'minsize': [C('minsize')],
     'gen': [C('gen'), C('gen', 1), C('gen', 2), C('gen', 3), C('gen', 4)],
     'gre': [C('gre'), C('gre', 1), C('gre', 2), C('gre', 3), C('gre', 7), C('gre', 12)],
-    'mincost': [C('mincost'), C('mincost', 1, 1), C('mincost', 0, 1), C('mincost', 2, 1), C('mincost', 1, 0), C('mincost', 10, 1)],
+    'mincost': [C('mincost'), C('mincost', 1, 1), C('mincost', 0, 1), C('mincost', 2, 1), C('mincost', 1, 0), C('mincost', 10, 1), C('mincost', 3), C('mincost', 0, 0)],
     'minsqcost': [C('minsqcost'), C('minsqcost', 1, 1), C('minsqcost', 0, 1), C('minsqcost', 2)],
     'lmb': [C('lmb')],
     'lsb': [C('lsb')],
-    'mincostlsb': [C('mincostlsb'), C('mincostlsb', 1, 2), C('mincostlsb', 0, 1), C('mincostlsb', 2, 0), C('mincostlsb', 1, 11)],
+    'mincostlsb': [C('mincostlsb'), C('mincostlsb', 1, 2), C('mincostlsb', 0, 1), C('mincostlsb', 2, 0), C('mincostlsb', 1, 11), C('mincostlsb', 3), C('mincostlsb', 0, 0)],
 }
 NAMES = list(VARIANTS)
 
